@@ -222,8 +222,9 @@ where
 	K: Keychain + 'a,
 {
 	let keychain = wallet.keychain(keychain_mask)?;
-	// create an output using the amount in the slate
-	let (_, mut context, mut tx) = selection::build_recipient_output(
+	// create an output using the amount in the slate; the output and its log entry (with
+	// the final excess) are written once the slate's signature data has been accepted
+	let (_, context, _) = selection::build_recipient_output(
 		wallet,
 		keychain_mask,
 		slate,
@@ -231,22 +232,19 @@ where
 		parent_key_id.clone(),
 		use_test_rng,
 		is_initiator,
+		|slate, context| {
+			// fill public keys
+			slate.fill_round_1(&keychain, context)?;
+
+			context.initial_sec_key = context.sec_key.clone();
+
+			if !is_initiator {
+				// perform partial sig
+				slate.fill_round_2(&keychain, &context.sec_key, &context.sec_nonce)?;
+			}
+			Ok(())
+		},
 	)?;
-
-	// fill public keys
-	slate.fill_round_1(&keychain, &mut context)?;
-
-	context.initial_sec_key = context.sec_key.clone();
-
-	if !is_initiator {
-		// perform partial sig
-		slate.fill_round_2(&keychain, &context.sec_key, &context.sec_nonce)?;
-		// update excess in stored transaction
-		let mut batch = wallet.batch(keychain_mask)?;
-		tx.kernel_excess = Some(slate.calc_excess(keychain.secp())?);
-		batch.save_tx_log_entry(tx.clone(), &parent_key_id)?;
-		batch.commit()?;
-	}
 
 	Ok(context)
 }
